@@ -22,7 +22,9 @@ RULE = ("Hypothesis draws a table (fields k, j, v, id; key cells from a small po
         "groupselectfirst/last (first/last of the group), groupselectmin/max (some member whose value is the group's "
         "min/max; one row per key), mergeduplicates/merge (key + per-field value set: value, missing or Conflict), "
         "groupcountdistinctvalues, valuecounts/valuecounter; conservation: group counts add up to nrows. Non-trivial = >=2 "
-        "groups and one of size >=2. Distinct by digest.")
+        "groups and one of size >=2. Sub 'dupfields': tables whose header repeats the aggregated field name: the simple, dict, "
+        "OrderedDict and item-assignment forms of aggregate must aggregate the same column (which one is not claimed), and it "
+        "must be one of the columns of that name (non-trivial = the columns differ). Distinct by digest.")
 ASSUMPTIONS = [
     "mergeduplicates/merge: key by field name(s), hashable value cells (documented examples); rectangular rows",
     "callable keys only with presorted=True (petl cannot sort by a callable)",
@@ -324,5 +326,54 @@ def check(case, ctx):
     return None
 
 
-SUBS = [Sub("grouping", check, strategy=case, quick=16000, thorough=250000)]
+# ---- repeated field names: every way of naming the aggregated field must pick the same column -------------------------
+@st.composite
+def dup_case(draw, tier):
+    hdr = draw(st.sampled_from([["k", "v", "w", "v"], ["v", "k", "v"], ["k", "v", "v", "w"], ["k", "w", "v", "w", "v"]]))
+    p = draw(gen.twinned_pool(KEYCELL, 2, 3))
+    tbl = draw(gen.table(hdr, [st.sampled_from(p) if f == "k" else st.integers(0, 5) for f in hdr], max_rows=6, min_rows=1))
+    return {"table": tbl, "fn": draw(st.sampled_from(["list", "sum", "min"])),
+            "buffersize": draw(st.sampled_from([None, 1, 2])), "keynone": draw(st.integers(0, 3)) == 0}
+
+
+def check_dup(case, ctx):
+    tbl = case["table"]
+    fn = {"list": list, "sum": sum, "min": min}[case["fn"]]
+    key = None if case["keynone"] else "k"
+    kw = {} if (case["buffersize"] is None or key is None) else {"buffersize": case["buffersize"]}
+    hdr = tbl[0]
+    vcols = [i for i, f in enumerate(hdr) if f == "v"]
+    ctx.label("fn:" + case["fn"], "key:none" if key is None else "key:k")
+    ctx.nontrivial(any(len({r[i] for i in vcols}) > 1 for r in tbl[1:]))
+    forms = collections.OrderedDict()
+    try:
+        forms["simple"] = [tuple(r) for r in etl.aggregate(codec.snapshot(tbl), key, fn, "v", **kw)]
+        forms["dict"] = [tuple(r) for r in etl.aggregate(codec.snapshot(tbl), key, {"value": ("v", fn)}, **kw)]
+        forms["ordereddict"] = [tuple(r) for r in etl.aggregate(codec.snapshot(tbl), key, collections.OrderedDict([("value", ("v", fn))]), **kw)]
+        agg = etl.aggregate(codec.snapshot(tbl), key, **kw)
+        agg["value"] = "v", fn
+        forms["setitem"] = [tuple(r) for r in agg]
+    except Exception as ex:
+        return exc_fail("dupfields", ex)
+    base = forms["simple"]
+    for name, got in forms.items():
+        if got[1:] != base[1:]:
+            return Fail("dupfields/forms-disagree", "aggregate(%r, %r, %s of 'v'): the %s form gave %r, the simple form %r" % (tbl, key, case["fn"], name, got, base))
+    # ... and it is one of the columns named 'v', the same one for every group
+    ok = False
+    for i in vcols:
+        if key is None:
+            exp = [(fn([r[i] for r in tbl[1:]]),)]
+        else:
+            groups = _groups([["k", "x"]] + [[r[hdr.index("k")], r[i]] for r in tbl[1:]], "k")
+            exp = [(k, fn([r[1] for r in g])) for k, g in groups]
+        if base[1:] == exp:
+            ok = True
+    if not ok:
+        return Fail("dupfields/not-a-column", "aggregate(%r, %r, %s of 'v') gave %r, which is the aggregate of neither column named 'v'" % (tbl, key, case["fn"], base))
+    return None
+
+
+SUBS = [Sub("grouping", check, strategy=case, quick=16000, thorough=250000),
+        Sub("dupfields", check_dup, strategy=dup_case, quick=1500, thorough=20000)]
 KNOWN = {}
